@@ -238,3 +238,38 @@ pub fn reset() {
 pub fn os_open(fd: i32) -> bool {
     unsafe { libc::fcntl(fd, libc::F_GETFD) != -1 }
 }
+
+// ---------------------------------------------------------------------------
+// inotify interposers: a10 calls `inotify_init1`/`inotify_add_watch` directly;
+// the reads go through the (simulated) ring. Real inotify instances are slow to
+// close (srcu synchronisation) and unavailable under Miri, so hand out ledger
+// descriptors and per-instance watch descriptors 1, 2, 3, ... like the kernel.
+
+static WATCHES: Mutex<Option<HashMap<i32, (i32, HashMap<Vec<u8>, i32>)>>> = Mutex::new(None);
+
+#[unsafe(no_mangle)]
+pub extern "C" fn inotify_init1(_flags: libc::c_int) -> libc::c_int {
+    let fd = issue("inotify");
+    let _g = MonGuard::new();
+    WATCHES.lock().unwrap_or_else(|e| e.into_inner()).get_or_insert_with(HashMap::new).insert(fd, (0, HashMap::new()));
+    fd
+}
+
+#[unsafe(no_mangle)]
+pub unsafe extern "C" fn inotify_add_watch(fd: libc::c_int, path: *const libc::c_char, _mask: u32) -> libc::c_int {
+    let _g = MonGuard::new();
+    let p = unsafe { std::ffi::CStr::from_ptr(path) }.to_bytes().to_vec();
+    let mut w = WATCHES.lock().unwrap_or_else(|e| e.into_inner());
+    let Some(inst) = w.get_or_insert_with(HashMap::new).get_mut(&fd) else {
+        unsafe { *libc::__errno_location() = libc::EBADF };
+        return -1;
+    };
+    // The same path gives the same watch descriptor.
+    if let Some(wd) = inst.1.get(&p) {
+        return *wd;
+    }
+    inst.0 += 1;
+    let wd = inst.0;
+    inst.1.insert(p, wd);
+    wd
+}
